@@ -3,7 +3,8 @@ import Pendulum.Proofs.ZoneOps
 import Pendulum.Proofs.Zone4
 import Pendulum.Proofs.CalRT
 import Pendulum.Proofs.NativeDT
-import Pendulum.Proofs.DTArithGen
+import Pendulum.Proofs.DTArithGenSub
+import Pendulum.Proofs.DTArithGenDate
 /-! # C11 — DateTime, Date and Time are drop-in replacements for the native classes
 
 The inherited accessors are literally the native ones; the theorems are about the **overrides**
